@@ -850,6 +850,60 @@ func TestC08(t *testing.T) {
 		}
 		c.Shutdown()
 	}
+	// A lock held while the storage underneath it is rewritten: small tables, the members' own compaction worker every 25 ms,
+	// and other keys of the same DMap written and deleted while the lock (with and without a timeout) is held.  The lock entry
+	// is moved from table to table; it stays the holder's.
+	{
+		c, err := cluster.Start(cluster.Options{Replicas: 1, Partitions: 3, Manual: true, TableSize: 2048, Housekeeping: 25 * time.Millisecond}, 2)
+		if err != nil {
+			t.Fatal(err)
+		}
+		cfg := "N=2 R=1 T=2048, compaction worker every 25 ms"
+		sum.Configs = append(sum.Configs, cfg)
+		paths := allPaths(t, c)
+		for b := 0; b < envInt("VERIF_COMPACTED_LOCKS", 4); b++ {
+			rec := NewRecorder()
+			key := fmt.Sprintf("held-%d", b)
+			tau := ms([]int{0, 3000}[b%2])
+			pa, pb := paths[rng.Intn(len(paths))], paths[rng.Intn(len(paths))]
+			stop := make(chan struct{})
+			var churn sync.WaitGroup
+			churn.Add(1)
+			go func() {
+				defer churn.Done()
+				time.Sleep(ms(40))
+				for n := 0; ; n++ {
+					select {
+					case <-stop:
+						return
+					default:
+					}
+					k := fmt.Sprintf("junk-%d-%d", b, n%60)
+					paths[0].Put(context.Background(), "c08", k, fmt.Sprintf("%0100d", n), PutOpts{})
+					if n%2 == 1 {
+						paths[0].Delete(context.Background(), "c08", k)
+					}
+				}
+			}()
+			scripts := []Script{
+				{Client: "a", Path: pa, Steps: []Step{{Op: "lock", Key: key, D: tau, Deadline: ms(100)}, {Op: "sleep", D: ms(900)}, {Op: "unlock", Key: key}}},
+				{Client: "b", Path: pb, Steps: []Step{{Op: "lock", Key: key, D: 0, Deadline: ms(200), At: ms(450)}, {Op: "unlock", Key: key}}},
+				{Client: "z", Path: pb, Steps: []Step{{Op: "lock", Key: key, D: 0, Deadline: ms(300), At: ms(1300)}, {Op: "unlock", Key: key}}},
+			}
+			for _, sc := range scripts {
+				sum.Paths[sc.Path.Name()]++
+				sum.Evaluations += len(sc.Steps)
+			}
+			rec.Run("c08", scripts, nil)
+			close(stop)
+			churn.Wait()
+			record(w, rec, &seq, sum, seen, trace.Ev{"cfg": cfg, "compaction": true}, func(h *History) bool { return h.Overlap })
+		}
+		for _, p := range paths {
+			p.Close()
+		}
+		c.Shutdown()
+	}
 	if err := w.Close(); err != nil {
 		t.Fatal(err)
 	}
